@@ -244,8 +244,9 @@ def _run(ctx, base):
             version = r.choice([None, 7.6, 8.0, 8.2])
             files = []
             targets = r.choice([[0], [0, 0], [1], [2], [0, 1], [254], [255], [256], [257], [300], [1, "bad"], ["bad"], [0, "bad"], [3, 0, "bad", 2],
-                                ["bad-latin1", 2], [1, "bad-selfinclude", 0], ["bad-latin1", "bad", 0, 3], [0, "bad-selfinclude"]])
-            forced = [[254], [255], [256], [257], ["bad"], ["bad-latin1", 2], [300], [1, "bad-selfinclude", 0]]
+                                ["bad-latin1", 2], [1, "bad-selfinclude", 0], ["bad-latin1", "bad", 0, 3], [0, "bad-selfinclude"],
+                                ["same-message-twice"], [1, "same-message-twice", 0], ["same-message-twice", "same-message-twice"]])
+            forced = [[254], [255], [256], [257], ["bad"], ["bad-latin1", 2], [300], ["same-message-twice", 1]]
             if res.counters["cli:validate"] == 1 and ctx.shard < len(forced):
                 targets = forced[ctx.shard]  # boundary cases are always present, one per shard
             for k2, t in enumerate(targets):
@@ -260,7 +261,10 @@ def _run(ctx, base):
                         f.write(f'MAP\n  INCLUDE "{os.path.basename(fn)}"\nEND\n')
                     files.append(fn)
                     continue
-                if t == "bad":
+                if t == "same-message-twice":
+                    # two elements of one list value wrong in the same way: two messages with identical text (same keyword, line, column)
+                    body = 'MAP\n  SIZE 10.5 10.5\n  LEGEND\n    KEYSIZE 0 0\n  END\n  SCALEBAR\n    SIZE -1 -1\n  END\nEND\n'
+                elif t == "bad":
                     body = 'MAP\n NAME "unterminated\n'
                 else:
                     layers = "".join(f'  LAYER\n    NAME "l{i}"\n    TYPE POINT\n    STATUS {"NOPE" if i < t else "ON"}\n  END\n' for i in range(max(t, 1)))
